@@ -112,25 +112,25 @@ Theorem C11_callable_1d_equals_keras :
 Proof. exact callable_1d_equals_keras. Qed.
 Print Assumptions C11_callable_1d_equals_keras.
 
-(* the container of the inputs.  Explainers hand tf tensors to predictions_one_hot_callable: right for every batch size.
-   Metrics hold NumPy arrays: right with a batch size (the rows come back out of a tf.data.Dataset as tensors) ... *)
+(* the container of the inputs (current code): explainers hand tf tensors, metrics hand NumPy arrays to
+   operator_batching(predictions_one_hot_callable); both are scored like a Keras model for EVERY batch size, None included *)
 Theorem C11_callable_container_ok :
   forall k (f : list Qc -> list Qc) K bs inputs targets,
     1 <= length inputs -> targets_ok K inputs targets -> (forall x, length (f x) = K) -> bs_ok bs ->
-    (k = TfTensor \/ bs <> None) ->
     batch_one_hot_callable_on k (model_2d f) bs inputs targets = Some (keras_scores f inputs targets).
 Proof. exact callable_container_ok. Qed.
 Print Assumptions C11_callable_container_ok.
 
-(* ... and WRONG with batch_size=None: inputs.numpy() does not exist on a NumPy array, so a metric (Deletion / Insertion)
-   built on a NumPy callable or predict_proba object with batch_size=None raises instead of returning the scores a Keras
-   model gets.  FINDING (code as found); witness: one sample [1/2], target [2], f(x) = [x_0]. *)
+(* FINDING, code as found (operator_batching passed the caller's object through when batch_size=None): inputs.numpy() does
+   not exist on a NumPy array, so a metric (Deletion / Insertion) built on a NumPy callable or predict_proba object with
+   batch_size=None raised AttributeError instead of returning the scores a Keras model gets; fine with a batch size and
+   for explainers.  Witness: one sample [1/2], target [2], f(x) = [x_0]. *)
 Theorem C11_metric_callable_bs_none_refuted :
   exists (f : list Qc -> list Qc) inputs targets,
     1 <= length inputs /\ targets_ok 1 inputs targets /\ (forall x, length (f x) = 1) /\
-    batch_one_hot_callable_on explainer_container (model_2d f) None inputs targets = Some (keras_scores f inputs targets) /\
-    batch_one_hot_callable_on metric_container (model_2d f) (Some 1) inputs targets = Some (keras_scores f inputs targets) /\
-    batch_one_hot_callable_on metric_container (model_2d f) None inputs targets <> Some (keras_scores f inputs targets).
+    batch_one_hot_callable_on_orig explainer_container (model_2d f) None inputs targets = Some (keras_scores f inputs targets) /\
+    batch_one_hot_callable_on_orig metric_container (model_2d f) (Some 1) inputs targets = Some (keras_scores f inputs targets) /\
+    batch_one_hot_callable_on_orig metric_container (model_2d f) None inputs targets = None.
 Proof. exact metric_callable_bs_none_refuted. Qed.
 Print Assumptions C11_metric_callable_bs_none_refuted.
 
